@@ -6,6 +6,7 @@
   Statements only; helper lemmas live in `Pyab/Proofs/Choice.lean`, `Pyab/Proofs/Choice2.lean`.
 -/
 import Pyab.Model.Choice
+import Pyab.Properties.C10_scaling
 import Pyab.Properties.PurePremise
 import Pyab.Spec.Interval
 import Pyab.Proofs.Choice2
